@@ -540,6 +540,27 @@ class Inliner:
     def _try_stmt(self, s, f, root):
         """If `s` contains an inlinable call in unconditional position, return the replacement statements."""
         heads = []
+        if isinstance(s, ast.While) and not s.orelse:
+            # `while (x := helper(..)) <test>: BODY`  ==  `while True: x = helper(..); if not <test on x>: break; BODY`
+            # (only when the walrus calls a helper that can be expanded: the call then stands in a statement of its own)
+            ws = [w for w in ast.walk(s.test) if isinstance(w, ast.NamedExpr)]
+            if len(ws) == 1 and isinstance(ws[0].value, ast.Call) and self._resolve(ws[0].value, f, root=root) is not None \
+                    and not any(isinstance(c, ast.Call) and c is not ws[0].value for c in ast.walk(s.test)):
+                w = ws[0]
+
+                class U(ast.NodeTransformer):
+                    def visit_NamedExpr(self, x):
+                        return ast.copy_location(ast.Name(x.target.id, ast.Load()), x) if x is w else self.generic_visit(x)
+                from .canon import negate
+
+                test2 = U().visit(copy.deepcopy(s.test)) if False else None
+                # substitute on the original nodes (identity of `w` matters)
+                asg = ast.copy_location(ast.Assign([ast.Name(w.target.id, ast.Store())], w.value), s)
+                tst = U().visit(s.test)
+                brk = ast.copy_location(ast.If(negate(tst), [ast.copy_location(ast.Break(), s)], []), s)
+                loop = ast.copy_location(ast.While(ast.copy_location(ast.Constant(True), s), [asg, brk] + list(s.body), []), s)
+                ast.fix_missing_locations(loop)
+                return [loop]
         if isinstance(s, ast.With) and len(s.items) == 1 and isinstance(s.items[0].context_expr, ast.Call):
             r = self._resolve(s.items[0].context_expr, f, ctxmgr=True, root=root)
             if r is not None:
